@@ -147,8 +147,6 @@ func (p *proxyConn) handleMITM(req *http.Request) error {
 	if err := p.writeResponse(res); err != nil {
 		return err
 	}
-	// Successful CONNECT response does not invoke trace.
-	p.traceWroteResponse(res, nil)
 
 	// Wait for the first byte of the tunnel under the idle timeout, as readRequest does for the
 	// next request. The CONNECT request left the read deadline cleared (unless ReadTimeout is set),
@@ -303,7 +301,7 @@ func (p *proxyConn) handleUpgradeResponse(res *http.Response) error {
 }
 
 func (p *proxyConn) tunnel(name string, res *http.Response, crw io.ReadWriteCloser) error {
-	if err := p.writeResponse(res); err != nil {
+	if err := p.writeTunnelResponse(res); err != nil {
 		return err
 	}
 	if err := drainBuffer(crw, p.brw.Reader); err != nil {
@@ -446,7 +444,21 @@ func (p *proxyConn) writeErrorResponse(req *http.Request, err error) error {
 	return p.writeResponse(res)
 }
 
+// writeResponse writes a response that is complete once it is written and reports it to the trace.
 func (p *proxyConn) writeResponse(res *http.Response) error {
+	return p.write(res, false)
+}
+
+// writeTunnelResponse writes the response that opens a tunnel: a successful CONNECT
+// or a protocol upgrade (101 Switching Protocols). Only the headers are written here;
+// the rest of the data flows through a raw TCP tunnel. Therefore, the caller must invoke
+// traceWroteResponse after the tunnel (and thus the response body) has been fully closed.
+// It is invoked here only if writing the headers fails.
+func (p *proxyConn) writeTunnelResponse(res *http.Response) error {
+	return p.write(res, true)
+}
+
+func (p *proxyConn) write(res *http.Response, tunnel bool) error {
 	req := res.Request
 	ctx := req.Context()
 
@@ -521,13 +533,7 @@ func (p *proxyConn) writeResponse(res *http.Response) error {
 		err = p.brw.Flush()
 	}
 
-	// traceWroteResponse must not be called for:
-	//	- a successful CONNECT request
-	//	- a successful protocol upgrade (101 Switching Protocols)
-	// In these cases, only the headers are written here; the rest of the data flows
-	// through a raw TCP tunnel. Therefore, traceWroteResponse should be invoked
-	// only after the tunnel (and thus the response body) has been fully closed.
-	if !skipTraceWroteResponse(res, err) {
+	if !tunnel || err != nil {
 		p.traceWroteResponse(res, err)
 	}
 
@@ -546,26 +552,6 @@ func (p *proxyConn) writeResponse(res *http.Response) error {
 	}
 
 	return nil
-}
-
-func skipTraceWroteResponse(res *http.Response, err error) bool {
-	// Do not skip traceWroteResponse on error.
-	if err != nil {
-		return false
-	}
-
-	// Skip traceWroteResponse on successful CONNECT.
-	req := res.Request
-	if req.Method == http.MethodConnect && res.StatusCode/100 == 2 {
-		return true
-	}
-
-	// Skip traceeWroteResponse on successful protocol upgrade.
-	if res.StatusCode == http.StatusSwitchingProtocols {
-		return true
-	}
-
-	return false
 }
 
 // writeHeaderOnlyResponse writes the status line and header of r to w.
